@@ -1447,7 +1447,7 @@ def _san(t: str) -> str:
 
 def builtins_namespace() -> Dict[str, V]:
     ns: Dict[str, V] = {}
-    for n in ("isinstance", "hasattr", "len", "any", "all", "repr", "sorted", "set", "filter", "map", "enumerate", "zip", "range", "getattr", "print", "min", "max"):
+    for n in ("isinstance", "hasattr", "len", "any", "all", "repr", "sorted", "set", "frozenset", "filter", "map", "enumerate", "zip", "range", "getattr", "print", "min", "max"):
         ns[n] = VBuiltin(n)
     for n in ("int", "str", "bool", "float", "list", "dict", "tuple", "object", "type"):
         ns[n] = VClass(n, smt.sint(ALT_TAGS.get(n, 90)))
